@@ -1003,10 +1003,10 @@ package gogen
 //@ requires imp(src != nil, len(src) >= 1)
 //@ loop 0 invariant len(args) == n && imp(rangeidx >= 0, typ == ite(typeis(args[rangeidx].Type, *TypeType), args[rangeidx].Type.(*TypeType).typ, args[rangeidx].Type))
 //@ ensures len(cb.stk.data) == old(cb.current.base)
-//@ assertcall NewParam: imp(n == 1 && typeis(args[0].Type, *TypeType), arg_typ == args[0].Type.(*TypeType).typ)
-//@ assertcall NewParam: imp(n != 1, arg_typ == asI(pss.xType, types.Type))
-//@ assertcall NewParam: imp(n == 1 && !typeis(args[0].Type, *TypeType), arg_typ == asI(pss.xType, types.Type))
-//@ assertcall NewParam: arg_name == pss.name && arg_pkg == cb.pkg.Types
+//@ assertcall@C03 NewParam: imp(n == 1 && typeis(args[0].Type, *TypeType), arg_typ == args[0].Type.(*TypeType).typ)
+//@ assertcall@C03 NewParam: imp(n != 1, arg_typ == asI(pss.xType, types.Type))
+//@ assertcall@C03 NewParam: imp(n == 1 && !typeis(args[0].Type, *TypeType), arg_typ == asI(pss.xType, types.Type))
+//@ assertcall@C03 NewParam: arg_name == pss.name && arg_pkg == cb.pkg.Types
 
 // a[i:j] / a[i:j:k] (Go spec "Slice expressions"): operand order in the node (C02), stack arity (C16), result type (C03)
 //@ func (*CodeBuilder).Slice
@@ -1021,4 +1021,4 @@ package gogen
 //@ ensures p.stk.data[len(p.stk.data)-1].Val.(*ast.SliceExpr).Low == old(p.stk.data[len(p.stk.data) - ite(slice3, 4, 3) + 1].Val)
 //@ ensures p.stk.data[len(p.stk.data)-1].Val.(*ast.SliceExpr).High == old(p.stk.data[len(p.stk.data) - ite(slice3, 4, 3) + 2].Val)
 //@ ensures p.stk.data[len(p.stk.data)-1].Val.(*ast.SliceExpr).Slice3 == slice3 && p.stk.data[len(p.stk.data)-1].Val.(*ast.SliceExpr).Max == ite(slice3, old(p.stk.data[len(p.stk.data)-1].Val), nil)
-//@ ensures SliceResultOK(old(p.stk.data[len(p.stk.data) - ite(slice3, 4, 3)].Type), slice3, p.stk.data[len(p.stk.data)-1].Type)
+//@ ensures[C03] SliceResultOK(old(p.stk.data[len(p.stk.data) - ite(slice3, 4, 3)].Type), slice3, p.stk.data[len(p.stk.data)-1].Type)
